@@ -201,6 +201,11 @@ def api_level(ctx, by_cfg):
             for d in dbus[:2]:
                 seqs.append([d, e])
             seqs.append([e, e])
+        pairs = sorted(f for f in names if f.startswith("verif-gen-pair-"))
+        for a in pairs:
+            for b2 in pairs:
+                if a != b2 and a.rsplit("-", 1)[0] == b2.rsplit("-", 1)[0]:
+                    seqs.append([a, b2])
         nrand = 40 if ctx.tier == "quick" else 600
         special = stacks + xstacks + execs
         for _ in range(nrand):
@@ -359,6 +364,11 @@ def generated_hosts(rng, b, n):
                 "  include <abstractions/base>\n\n  @{exec_path} mr,\n\n%s\n\n  /etc/%s r,\n\n  include if exists <local/%s>\n}\n"
                 % (name, name, line, name, name))
         out.append((name, text))
+    # pairs of hosts that name the same target with different transitions (always present, whatever the draws above gave)
+    for i, t in enumerate(hot[:3]):
+        for j, tr in enumerate(rng.sample(["P", "U", "p", "u", "PU", "pu"], 2)):
+            name = "verif-gen-pair-%d-%d" % (i, j)
+            out.append((name, host_text(name, ["  #aa:exec %s %s" % (tr, t)])))
     # dbus directives whose expansion iterates over several arguments (both interface keys), in both argument orders
     from .c07 import gen_dbus
     for i in range(4):
